@@ -71,6 +71,7 @@ type c02Case struct {
 	Rqual []int           `json:"rqual,omitempty"`
 	T0    [][]any         `json:"t0,omitempty"`
 	T1    [][]any         `json:"t1,omitempty"`
+	Badq  [][]any         `json:"badq,omitempty"`
 }
 
 func (c *c02Case) defTokens() []string {
@@ -433,9 +434,30 @@ func checkRecord(c *c02Case, sl obiseq.BioSequenceSlice, stage string) (string, 
 	return "", ""
 }
 
+// malformed texts of the specification (score line shorter / longer than the nucleotides): the reader
+// must not deliver a record (the real code calls log.Fatal; an error or an empty result would do as well)
+func replayReject(env *Env, c *c02Case) {
+	for k, q := range c.Badq {
+		lines := append(append([][]any{}, c.T0[:3]...), q)
+		text := render(lines)
+		n := 0
+		completed, _ := isolated(func() { n = len(readText(c.Fmt, text, c.Si, "json")) })
+		cl := "reject/shorter"
+		if k == 1 {
+			cl = "reject/longer"
+		}
+		if completed && n > 0 {
+			env.fail("C02.rt.length_check", cl, fmt.Sprintf("fastq len=%d shift %d: a text with %d scores for %d nucleotides is read as a record",
+				c.Len, c.Si, len(q), c.Len), c)
+		}
+		env.ok(cl)
+	}
+}
+
 func replayRt(env *Env, c *c02Case) {
 	t0 := render(c.T0)
 	t1 := render(c.T1)
+	replayReject(env, c)
 	for _, parser := range []string{"json", "guessed"} {
 		cl := c.Cls + "/" + parser
 		assert, detail := "", ""
@@ -602,11 +624,16 @@ type c02Event struct {
 	AnnIn  string `json:"ann_in"`
 	AnnOut string `json:"ann_out"`
 	Cls    string `json:"cls"`
+	// re-parse of the formatted header: all annotations after the first parse, after the second, both texts
+	AnnAll string `json:"ann_all"`
+	Ann2   string `json:"ann2"`
+	Text2  []int  `json:"text2"`
+	Text3  []int  `json:"text3"`
 }
 
 func newEvent(op string) *c02Event {
 	return &c02Event{Op: op, R: []c02Rec{}, T0: [][]int{}, R1: []c02Rec{}, T1: [][]int{}, R2: []c02Rec{}, T2: [][]int{},
-		Line: []int{}, Def: []int{}}
+		Line: []int{}, Def: []int{}, Text2: []int{}, Text3: []int{}}
 }
 
 // ---- generators
@@ -901,6 +928,13 @@ func recordHdrEvent(g gen, parser string, classes map[string]int) *c02Event {
 		headerParser(parser)(s)
 		ev.AnnOut = canon(annotationsOf(s, true))
 		ev.Def = bytesOf([]byte(s.Definition()))
+		ev.AnnAll = canon(annotationsOf(s, false))
+		text2 := obiformats.FormatFastSeqJsonHeader(s)
+		ev.Text2 = bytesOf([]byte(text2))
+		s2 := obiseq.NewBioSequence("id1", []byte("acgt"), text2)
+		headerParser(parser)(s2)
+		ev.Ann2 = canon(annotationsOf(s2, false))
+		ev.Text3 = bytesOf([]byte(obiformats.FormatFastSeqJsonHeader(s2)))
 	})
 	if pmsg != "" {
 		ev.Fatal, ev.Why = 1, "panic: "+pmsg
